@@ -10,7 +10,7 @@ from . import alpha
 from .core import REPO, VERIF, content, hexs, new_sandbox, rm, sha1, snapshot, write_file
 
 P = 16384
-SIZES = {0: 0, 1: 20000, 2: 50000, 3: 70001}
+SIZES = {0: 0, 1: 40000, 2: 70001, 3: 90000}     # piece counts at 16 KiB / 32 KiB: 3|2, 5|3, 6|3
 RELS = {"r/a": ["a"], "r/d/b": ["d", "b"], "r/d/c": ["d", "c"]}
 
 
@@ -33,13 +33,15 @@ def snap_sig(root):
     return sha1(json.dumps(sorted((k, v[0], v[1], v[2]) for k, v in s.items())).encode()).hex()
 
 
-def do_op(op, base, target, version, metafile, scratch):
+def do_op(op, base, target, version, metafile, scratch, plen=1, alt=False):
     """Execute one tool operation; returns a JSON-able signature of its observable result."""
     from .create import create_meta, rest_sig
     try:
         if op == "create":
-            creator = "TorrentFile" if version == 1 else "TorrentAssembler"
-            st = create_meta({"creator": creator, "version": version, "P": P}, tpath(base, target), metafile)
+            # alt: the class-based creator (other hasher classes) instead of the CLI's assembler
+            creator = "TorrentFile" if version == 1 else ("TorrentAssembler", "TorrentFileV2", "TorrentFileHybrid")[
+                0 if not alt else (1 if version == 2 else 2)]
+            st = create_meta({"creator": creator, "version": version, "P": P * plen}, tpath(base, target), metafile)
             if st != "ok":
                 return {"status": st, "sig": ""}
             with open(metafile, "rb") as fh:
@@ -71,10 +73,10 @@ def do_op(op, base, target, version, metafile, scratch):
     return {"status": "unknown-op", "sig": ""}
 
 
-def fresh(op, base, target, version, metafile, scratch):
+def fresh(op, base, target, version, metafile, scratch, plen=1, alt=False):
     """The same operation in a brand-new interpreter."""
     req = json.dumps({"op": op, "base": base, "target": target, "version": version, "metafile": metafile,
-                      "scratch": scratch})
+                      "scratch": scratch, "plen": plen, "alt": alt})
     env = dict(os.environ, PYTHONPATH=VERIF + os.pathsep + REPO, PYTHONDONTWRITEBYTECODE="1", VERIF_REPO=REPO)
     p = subprocess.run([sys.executable, "-c", "from vh.system import fresh_main; fresh_main()"], input=req.encode(),
                        stdout=subprocess.PIPE, stderr=subprocess.PIPE, env=env, timeout=120)
@@ -92,7 +94,8 @@ def fresh_main():
     sys.stdout = open(os.devnull, "w")
     import logging
     logging.disable(logging.CRITICAL)
-    res = do_op(req["op"], req["base"], req["target"], req["version"], req["metafile"], req["scratch"])
+    res = do_op(req["op"], req["base"], req["target"], req["version"], req["metafile"], req["scratch"],
+                req.get("plen", 1), req.get("alt", False))
     sys.stdout = real
     print("RESULT " + json.dumps(res))
 
@@ -131,6 +134,7 @@ def run_history(case):
             scratch_fr = os.path.join(sbx, "s%d-fr" % n)
             os.makedirs(scratch_in)
             os.makedirs(scratch_fr)
+            plen = stp.get("plen", 1)
             if op == "create":
                 version = stp["version"]
                 mf_in = os.path.join(sbx, "o", "%s-%d.torrent" % (target.replace("/", "_"), n))
@@ -142,14 +146,15 @@ def run_history(case):
                 mf_in, version = metas[target]
                 mf_fr = os.path.join(scratch_fr, "m.torrent")
                 shutil.copyfile(mf_in, mf_fr)
-            res_fr = fresh(op, base, target, version, mf_fr, scratch_fr)
-            res_in = do_op(op, base, target, version, mf_in, scratch_in)
+            alt = (n + case["id"]) % 2 == 1
+            res_fr = fresh(op, base, target, version, mf_fr, scratch_fr, plen, alt)
+            res_in = do_op(op, base, target, version, mf_in, scratch_in, plen, alt)
             rec = {"id": rid + n, "group": "none", "sysop": op, "target": target, "version": version,
                    "status": res_in["status"], "sig": res_in["sig"], "fresh_status": res_fr["status"],
                    "fresh_sig": res_fr["sig"], "clauses": ["C09.fresh"]}
             if op == "create":
                 root = tpath(base, target)
-                rec.update({"op": "create", "align": False, "P": P, "single": target == "r/a",
+                rec.update({"op": "create", "align": False, "P": P * plen, "single": target == "r/a",
                             "name": hexs(os.path.basename(root)), "outer": "", "creator": "history",
                             "disk": [{"path": [hexs(c) for c in comps], "size": sz}
                                      for comps, sz in alpha.disk_files(root)]})
